@@ -212,6 +212,12 @@ def make_potential(desc, sigma_eff):
     q = pot_params(name, p, explicit if explicit is not None else sigma_eff)
     if explicit is not None:
         q['sigma'] = explicit
+    # arguments that have their documented default value are left out (the defaults themselves are exercised)
+    if name == 'LennardJones':
+        if q.get('rcut') is None:
+            q.pop('rcut', None)
+        if not q.get('shift'):
+            q.pop('shift', None)
     return getattr(P.potential, name)(**q)
 
 
@@ -228,14 +234,16 @@ CLOSURE_CLASS = {'PY': 'PercusYevick', 'HNC': 'HyperNettedChain', 'MSA': 'MeanSp
 
 def make_closure(desc):
     P = target()
-    return getattr(P.closure, CLOSURE_CLASS[desc[0]])(apply_hard_core=bool(desc[1]))
+    cls = getattr(P.closure, CLOSURE_CLASS[desc[0]])
+    # the documented default (no hard-core flag) is exercised by leaving the argument out
+    return cls(apply_hard_core=True) if desc[1] else cls()
 
 
 def build_system(spec, scale=1.0, types=None):
     P = target()
     types = list(spec['types']) if types is None else types
     n = len(types)
-    s = P.System(types, kT=spec['kT'])
+    s = P.System(types, kT=spec['kT']) if spec['kT'] != 1.0 else P.System(types)     # kT=1.0 is the documented default
     s.domain = P.Domain(length=spec['domain']['length'], dr=spec['domain']['dr'])
     rho = density_of(spec, scale)
     for t, d, r in zip(types, spec['dia'], rho):
